@@ -5,7 +5,9 @@ ported = {"C01-1": "follower-side observations now go to observedRevision; the c
           "C10-2": "context lines only",
           "C12-1": "context lines only; demo adapted: the watcher path now runs OnDemote, so the demo compares against the count at the end of term 1",
           "C07-1": "same edit on the repaired code: the fall-through now also happens for a stale event naming another id; it then breaks C18 (a leader's LeaderID shows another id) rather than demoting the leader"}
-obsolete = {"C08-1": "after the fix 'run the demotion callback only in the handler that actually ended the term' dropping the leader guard no longer doubles OnDemote (becomeFollower reports nothing cleared); kept for the record only"}
+obsolete = {"C01-2": "after the fix that keeps follower-side observations out of the refresh revision, a demoted instance that keeps heartbeating can only refresh a record it still owns (its demo passes with the change); the change is still flagged by refresh_only_while_leader (C06/C03/C07: such an instance keeps a leaderless record alive), without an executable demo",
+            "C07-1": "after the same fix a late notification of the leader's own record no longer rewinds the refresh revision (its demo passes with the change); the identical edit still breaks C18 and is kept as seeded/C18-3 with a new demo",
+            "C08-1": "after the fix 'run the demotion callback only in the handler that actually ended the term' dropping the leader guard no longer doubles OnDemote (becomeFollower reports nothing cleared); kept for the record only"}
 ver = {}
 for f in glob.glob('/tmp/verify_head_*.jsonl'):
     for l in open(f):
